@@ -53,7 +53,21 @@ class ExecGen:
     def tick(self):
         self.n_tick += 1
         self.used_hosts.add('hostTick')
-        return ir.st_expr(call('hostTick', s(f't{self.n_tick}')))
+        e = call('hostTick', s(f't{self.n_tick}'))
+        c = self.rng.random()
+        # an expression statement need not be a bare call: the call may sit under a group, a unary or a
+        # (short-circuiting) binary operator — it is evaluated all the same
+        if c < 0.04:
+            e = ir.group(e)
+        elif c < 0.08:
+            e = ir.unop('!', e)
+        elif c < 0.12:
+            e = ir.binop('&&', num(1), e)
+        elif c < 0.16:
+            e = ir.binop('||', ir.var('null'), e)
+        elif c < 0.18:
+            e = ir.binop('+', e, num(1))
+        return ir.st_expr(e)
 
     def site(self, kind):
         """A fresh hostNext site. kind: 'loop' (k truthy then falsy, or forever), 'cond', 'num'."""
@@ -479,6 +493,18 @@ class ExecGen:
                 pos = r.randint(0, len(stmts))
                 own = ref.rsplit('/', 1)[-1]
                 stmts[pos:pos] = [ir.st_jump(lab, unop('!', call('hostNext', s(site)))), ir.st_include(own), ir.st_label(lab)]
+            if self.funcs and r.random() < self.k.get('p_guard', 0.2) and not self.k.get('func_includes'):
+                # the include-guard idiom: a return at the top that an environment answer takes or not, and BEHIND it a
+                # function statement re-binding a name the includer already uses (a taken return ends the script: the
+                # name keeps its old binding)
+                site = f's{self.n_site}'
+                self.n_site += 1
+                self.used_hosts.add('hostNext')
+                self.answers[site] = {'seq': [r.choice([0, 1])], 'then': r.choice([0, 1])}
+                lab = self.label()
+                guard = [ir.st_jump(lab, unop('!', call('hostNext', s(site)))), ir.st_return(), ir.st_label(lab)]
+                redef = ir.st_function(r.choice(self.funcs), [], [self.tick(), ir.st_return(num(70 + ix))])
+                stmts = guard + stmts + [redef]
             self.files[norm] = self.file_entry(stmts, broken=r.random() < self.k.get('p_broken', 0.0))
             refs.append(ref)
         if r.random() < 0.15:
